@@ -16,6 +16,7 @@ import (
 	"os"
 	"sort"
 	"strings"
+	"sync"
 
 	"github.com/prometheus/client_golang/prometheus"
 	dto "github.com/prometheus/client_model/go"
@@ -27,9 +28,11 @@ import (
 	"github.com/prometheus/prometheus/tsdb"
 	"github.com/prometheus/prometheus/tsdb/chunkenc"
 	"github.com/prometheus/prometheus/tsdb/record"
+	"github.com/prometheus/prometheus/tsdb/tombstones"
 	"github.com/prometheus/prometheus/tsdb/wlog"
 
 	"verif/internal/gen"
+	"verif/internal/sched"
 	"verif/internal/tsdbx"
 )
 
@@ -352,6 +355,7 @@ type Exec struct {
 	// restart can replay it from the WAL again (known finding): allowed, not required.
 	DeletedVals map[string]map[int64]map[string]bool
 	Resurrected int
+	undead      map[string]map[int64]map[string]bool // resurrected once: stays allowed-not-required
 	// orphan: out-of-order samples still only in the WBL.  State 1 = a restart happened since the
 	// append (the series may have been given another ref, mapped through a duplicate series
 	// record in the WAL), 2 = then the WAL was truncated (the duplicate record can be dropped),
@@ -365,6 +369,8 @@ type Exec struct {
 	// only in the head/WAL (known finding).  In-order samples missing after a restart that lie
 	// inside the range of such a source block are allowed-not-required.
 	oooBlocks map[string][2]int64
+	oooMu     sync.Mutex
+	ctl       *sched.Controller
 	LostBehindOOOMerge int
 	Steps   []string
 	// Stats
@@ -377,12 +383,30 @@ type Exec struct {
 }
 
 func NewExec(dir string, cfg Config) (*Exec, error) {
-	e := &Exec{Dir: dir, Cfg: cfg, Model: tsdbx.Expect{}, Zombies: map[string]map[int64]map[string]bool{}, maybeOOO: map[string]map[int64]bool{}, ErrClasses: map[string]int{}, orphan: map[string]map[int64]int{}, oooBlocks: map[string][2]int64{}, DeletedVals: map[string]map[int64]map[string]bool{}, Ghosts: map[string]map[int64]bool{}, deleted: map[string][][2]int64{}}
+	e := &Exec{Dir: dir, Cfg: cfg, Model: tsdbx.Expect{}, Zombies: map[string]map[int64]map[string]bool{}, maybeOOO: map[string]map[int64]bool{}, ErrClasses: map[string]int{}, undead: map[string]map[int64]map[string]bool{}, orphan: map[string]map[int64]int{}, oooBlocks: map[string][2]int64{}, DeletedVals: map[string]map[int64]map[string]bool{}, Ghosts: map[string]map[int64]bool{}, deleted: map[string][][2]int64{}}
 	e.Series = gen.SimpleSeries(cfg.NumSeries)
 	if err := e.open(); err != nil {
 		return nil, err
 	}
+	// Observe the out-of-order blocks at the moment they are loaded (inside DB.Compact they may be
+	// merged away again before Compact returns).
+	e.ctl = sched.Install()
+	e.ctl.OnHit(func(site string, _ *sched.Actor) {
+		if site == "tsdb.compactOOO.afterReload" && e.DB != nil {
+			e.scanOOOBlocks()
+		}
+	})
 	return e, nil
+}
+
+func (e *Exec) scanOOOBlocks() {
+	for _, b := range e.DB.Blocks() {
+		if m := b.Meta(); m.Compaction.FromOutOfOrder() && m.Compaction.Level == 1 {
+			e.oooMu.Lock()
+			e.oooBlocks[m.ULID.String()] = [2]int64{m.MinTime, m.MaxTime}
+			e.oooMu.Unlock()
+		}
+	}
 }
 
 func (e *Exec) open() error {
@@ -397,6 +421,10 @@ func (e *Exec) open() error {
 }
 
 func (e *Exec) Close() error {
+	if e.ctl != nil {
+		e.ctl.Uninstall()
+		e.ctl = nil
+	}
 	if e.DB == nil {
 		return nil
 	}
@@ -583,11 +611,7 @@ func (e *Exec) Apply(op Op) error {
 		if n := len(e.DB.Blocks()); n > e.BlocksSeen {
 			e.BlocksSeen = n
 		}
-		for _, b := range e.DB.Blocks() {
-			if m := b.Meta(); m.Compaction.FromOutOfOrder() && m.Compaction.Level == 1 {
-				e.oooBlocks[m.ULID.String()] = [2]int64{m.MinTime, m.MaxTime}
-			}
-		}
+		e.scanOOOBlocks()
 	}
 	return nil
 }
@@ -756,9 +780,22 @@ func (e *Exec) effective(d tsdbx.Dump) tsdbx.Expect {
 		}
 		for k, ss := range d {
 			for _, smp := range ss {
-				if vals := e.DeletedVals[k][smp.T]; vals != nil && vals[smp.ValKey()] && m[k][smp.T] == nil && !covered(smp.T) {
-					m.Add(k, smp.T, smp.ValKey())
-					e.Resurrected++
+				if vals := e.DeletedVals[k][smp.T]; vals != nil && vals[smp.ValKey()] && m[k][smp.T] == nil {
+					if u := e.undead[k][smp.T]; u != nil && u[smp.ValKey()] {
+						m.Add(k, smp.T, smp.ValKey())
+						continue
+					}
+					if !covered(smp.T) {
+						m.Add(k, smp.T, smp.ValKey())
+						e.Resurrected++
+						if e.undead[k] == nil {
+							e.undead[k] = map[int64]map[string]bool{}
+						}
+						if e.undead[k][smp.T] == nil {
+							e.undead[k][smp.T] = map[string]bool{}
+						}
+						e.undead[k][smp.T][smp.ValKey()] = true
+					}
 				}
 			}
 		}
@@ -871,6 +908,13 @@ func (e *Exec) Diagnose() string {
 		fmt.Fprintf(&sb, "  in-order head: %s", strings.ReplaceAll(d.Brief(), "\n", " | "))
 		sb.WriteString("\n")
 	}
+	if tr, err := h.Tombstones(); err == nil {
+		tr.Iter(func(ref storage.SeriesRef, ivs tombstones.Intervals) error {
+			fmt.Fprintf(&sb, "  head tombstone ref=%d %v\n", ref, ivs)
+			return nil
+		})
+	}
+	fmt.Fprintf(&sb, "  head refs: %v\n", h.VerifSeriesRefs())
 	for _, b := range e.DB.Blocks() {
 		m := b.Meta()
 		fmt.Fprintf(&sb, "block %s [%d,%d) level=%d sources=%d hints=%v tombstones=%d\n", m.ULID, m.MinTime, m.MaxTime, m.Compaction.Level, len(m.Compaction.Sources), m.Compaction.Hints, m.Stats.NumTombstones)
